@@ -109,6 +109,9 @@ func callKey(a keyArgs) ([]byte, error) {
 	case "sha1":
 		var k []byte
 		var err error
+		if a.rounds != 4294967295 {
+			return sha1.Key(a.pw, a.salt, a.rounds)
+		}
 		var rb [4]byte
 		binary.BigEndian.PutUint32(rb[:], a.rand)
 		withEntropy(rb[:], func() { k, err = sha1.Key(a.pw, a.salt, a.rounds) })
